@@ -267,8 +267,11 @@ def filter_args(func, ignore_lst, args=(), kwargs=dict()):
         # func.__func__
         class_method_sig = inspect.signature(func.__func__)
         self_name = next(iter(class_method_sig.parameters))
-        arg_names = [self_name] + arg_names
         self_param = class_method_sig.parameters[self_name]
+        if self_param.kind is not self_param.VAR_POSITIONAL:
+            # Otherwise (def f(*args)) the instance is the first of the
+            # surplus positional arguments.
+            arg_names = [self_name] + arg_names
         if self_param.kind is self_param.POSITIONAL_ONLY:
             # def f(self, /, **kwargs): a keyword named 'self' is a surplus
             # keyword, it does not rebind the instance.
